@@ -1047,6 +1047,11 @@ impl<C: CellType> OptRebuild<'_, C> {
     ) -> HashMap<isize, Expr<C>> {
         let mut linear = HashMap::new();
         for var in vars {
+            // A variable already written in this iteration no longer holds its
+            // value from the start of the iteration in the pending expressions.
+            if sub_state.written.contains_key(&var) {
+                continue;
+            }
             if let Some(complete) = sub_state.get(var) {
                 if let Some(inc) = complete.inc_of(var) {
                     if inc.variables().all(|x| constant.contains(&x)) {
